@@ -21,8 +21,9 @@ Inductive case :=
 (* operations on the real StreamManager over S sessions x P peers x X streams *)
 | Streams (S P X : nat) (ops : list sop) (impl : list sobs)
 (* admission rounds repeated in a child process built with Go's race detector: number of data race
-   reports (the observable counterpart of the lock-discipline theorem) *)
-| Race (rounds reports : nat).
+   reports (the observable counterpart of the lock-discipline theorem); ran = the race-enabled
+   child could be built and run *)
+| Race (rounds reports : nat) (ran : bool).
 
 Definition ret_eqb (a b : ret) : bool :=
   match a, b with
@@ -92,7 +93,7 @@ Definition agree (c : case) : bool :=
       nats_eqb (summary np (session_trace r o ph np)) (summary np evs)
       && ret_eqb (session_ret r o ph) rt
   | Streams nS nP nX ops impl => sobss_eqb (model_sobs nS nP nX (sm_empty, fun _ => 0) ops) impl
-  | Race _ _ => true
+  | Race _ _ ran => ran
   end.
 
 Definition judge (c : case) : bool :=
@@ -105,7 +106,7 @@ Definition judge (c : case) : bool :=
       && forallb (fun b => b) reuse
   | Sess r o ph np evs rt live reuse => cleanup_ok np evs && Nat.eqb live 0 && reuse
   | Streams nS nP nX ops impl => streams_ok nS nP nX ops impl
-  | Race _ reports => Nat.eqb reports 0
+  | Race _ reports _ => Nat.eqb reports 0
   end.
 
 Definition has_dup (l : list nat) : bool :=
@@ -120,7 +121,7 @@ Definition tag (c : case) : N :=
          + (match r with Coord => 0 | Peer => 1 end)
          + (match ph with BeforeStart => 0 | DuringRun => 10 end))%N
   | Streams _ _ _ _ _ => 30%N
-  | Race _ _ => 31%N
+  | Race _ _ _ => 31%N
   end.
 
 Definition check_all := check_cases agree judge tag.
